@@ -62,6 +62,7 @@ func runC06(r *fw.Run, p *fw.Program) {
 	c06Alloc(r, p)
 	c06Bounds(r, p, reach)
 	c06Sentinel(r, p, reach)
+	c06WrapGuard(r, p)
 	c06Sym(r, p)
 	c06OutType(r, p)
 }
